@@ -1270,7 +1270,12 @@ func (ctx Ctx) funcLit(e *ast.FuncLit) coq.FuncLit {
 func (ctx Ctx) exprSpecial(e ast.Expr, isSpecial bool) coq.Expr {
 	switch e := e.(type) {
 	case *ast.CallExpr:
-		return ctx.callExpr(e)
+		call := ctx.callExpr(e)
+		if _, isLog := call.(coq.LoggingStmt); isLog {
+			// printed as a comment, which only a statement can be
+			ctx.unsupported(e, "logging call used as a value")
+		}
+		return call
 	case *ast.MapType:
 		return ctx.mapType(e)
 	case *ast.Ident:
@@ -1983,7 +1988,12 @@ func (ctx Ctx) stmtInBlock(s ast.Stmt, usage ExprValUsage) (coq.Binding, bool) {
 	case *ast.GoStmt:
 		binding = coq.NewAnon(ctx.goStmt(s))
 	case *ast.ExprStmt:
-		binding = coq.NewAnon(ctx.expr(s.X))
+		if call, ok := s.X.(*ast.CallExpr); ok {
+			// (the one place where a logging call may stand)
+			binding = coq.NewAnon(ctx.callExpr(call))
+		} else {
+			binding = coq.NewAnon(ctx.expr(s.X))
+		}
 	case *ast.AssignStmt:
 		binding = ctx.assignStmt(s)
 	case *ast.DeclStmt:
